@@ -17,6 +17,7 @@ from zope.interface import Interface, implementedBy, providedBy, classImplements
 from zope.interface import adapter as _adapter
 from zope.interface import interface as _interface
 from zope.interface import declarations as _declarations
+from zope.interface import ro as _ro
 from zope.interface.interface import InterfaceClass, adapter_hooks
 from zope.interface.adapter import (AdapterRegistry, VerifyingAdapterRegistry,
                                     AdapterLookup, VerifyingAdapterLookup)
@@ -29,6 +30,7 @@ from .. import sched
 ADOPTED_LOCKS = sched.adopt_locks(_adapter, _interface, _declarations)
 IS_C = _adapter.LookupBase is not _adapter.LookupBaseFallback
 WATCH = {_adapter.__file__, _interface.__file__, _declarations.__file__}
+WATCH_RO = WATCH | {_ro.__file__}     # for the harnesses in which a resolution order is recomputed
 SENT = object()
 
 
@@ -634,6 +636,8 @@ MUTATORS = {
     'unsubscribe': lambda w: w.reg.unsubscribe([w.I0], w.P),
     'register-in-base': lambda w: w.base.register([w.I1], w.P, 'b', w.fNEW),
     'rebase-registry': lambda w: setattr(w.reg, '__bases__', (w.base2,)),
+    # a registry *above* the one that is looking something up gets a new base
+    'rebase-base-registry': lambda w: setattr(w.base, '__bases__', (w.other,)),
     'classImplements': lambda w: classImplements(w.K, w.X),
     'rebase-interface': lambda w: setattr(w.I1, '__bases__', (w.X,)),
     # the *first* registration for a provided interface (PN extends P): besides the
@@ -703,6 +707,10 @@ def make_harness(flavour, mutator, entries):
         # changed() while a lookup adds to it)
         w.reg.lookup([w.X], w.P, '')
         w.reg.subscriptions([w.I0], w.PN)
+        if variant == 'stale-ro':
+            # a verifying registry that has to recompute its resolution order
+            # in its next lookup (a base changed since its last one)
+            w.base.register([w.P], w.PN, 'q', 1)      # applies to none of the lookups made here
         if variant == 'watching':
             # ... and the very specifications the threads are going to look
             # up (through keys the threads do not use): an invalidation then
@@ -826,7 +834,8 @@ def explore_harness(arg):
     def journal(prefix):
         with open(jpath, 'w') as f:
             f.write(repr((flavour, mutator, entries, list(prefix))))
-    st = sched.explore(make_harness(flavour, mutator, entries), WATCH, bound,
+    st = sched.explore(make_harness(flavour, mutator, entries),
+                       WATCH_RO if flavour.endswith('+stale-ro') else WATCH, bound,
                        make_check(flavour, mutator, entries), journal=journal,
                        max_schedules=maxs, shard=shard, collect=collect,
                        stack0=(mode if isinstance(mode, list) else
@@ -855,10 +864,12 @@ def replay(case):
         sched.OPCODE_FUNCS.clear()
         sched.OPCODE_FUNCS.update(case.get('opcode') or ())
         gc.disable()
-        out, v = sched.replay_schedule(make_harness(flavour, mutator, entries), WATCH,
+        out, v = sched.replay_schedule(make_harness(flavour, mutator, entries),
+                                          WATCH_RO if flavour.endswith('+stale-ro') else WATCH,
                                        case['schedule'], make_check(flavour, mutator, entries))
         # determinism: the same schedule must give the same observation twice
-        out2, v2 = sched.replay_schedule(make_harness(flavour, mutator, entries), WATCH,
+        out2, v2 = sched.replay_schedule(make_harness(flavour, mutator, entries),
+                                          WATCH_RO if flavour.endswith('+stale-ro') else WATCH,
                                          case['schedule'], make_check(flavour, mutator, entries))
         if (out, repr(v)) != (out2, repr(v2)):
             return dict(error='replay is not deterministic', first=repr(v), second=repr(v2))
@@ -1031,6 +1042,13 @@ def run(ctx):
                     else:
                         add(flavour + '+watching', mut, [e], 2, True)
             add(flavour + '+watching', None, ['lookup', 'lookupAll'], 1 if quick else 2, not quick)
+            if flavour == 'verifying':
+                # the lookup recomputes the resolution order of its registry
+                # (scheduling points inside ro.py as well) while a registry
+                # above is re-based
+                for e in ('lookup', 'subscriptions'):
+                    add('verifying+stale-ro', 'rebase-base-registry', [e], 1 if quick else 2, not quick)
+                    add('verifying+stale-ro', 'rebase-registry', [e], 1, False)
             if quick:
                 if flavour == 'adapter':
                     add(flavour, 'register', ['lookup'], 2, True)
